@@ -48,6 +48,22 @@ inductive KRow
   | unrecognised (site : String)
   deriving DecidableEq, Repr
 
+/-- table MiddlewareFlow: the statement skeleton of the serving code (one row per statement, source order) -/
+inductive FRow
+  | stmt (fn : String) (depth : Nat) (kind text : String)
+  | unrecognised (site : String)
+  deriving DecidableEq, Repr
+
+/-- the statements of one function: (depth, kind, text) -/
+def flowOf (t : List FRow) (fn : String) : List (Nat × String × String) :=
+  t.filterMap (fun r => match r with | .stmt fn' d k x => if fn' == fn then some (d, k, x) else none | _ => none)
+
+def fUnrecognised (t : List FRow) : List String :=
+  t.filterMap (fun r => match r with | .unrecognised s => some s | _ => none)
+
+def flowFns (t : List FRow) : List String :=
+  (t.filterMap (fun r => match r with | .stmt fn _ _ _ => some fn | _ => none)).eraseDups
+
 /-! ### optional interfaces of an http.ResponseWriter a handler may assert -/
 
 /-- the optional interfaces net/http, io and http.ResponseController look for on a ResponseWriter -/
